@@ -109,6 +109,7 @@ def detection_datasets():
     d.attrs['Conventions'] = 'ugrid-1.0'        # the marker is upper case
     out['ugrid-lowercase-marker'] = d
     out['ugrid-second-mesh'] = builders.build({'family': 'ugrid', 'mesh': 'M1', 'second_mesh': True})[0]
+    out['ugrid-second-mesh-listed-first'] = builders.build({'family': 'ugrid', 'mesh': 'M1', 'second_mesh': 'first'})[0]
     # a mesh file that also carries what identifies a SHOC simple file: two built-in conventions match equally well
     d = ugrid.copy()
     d.attrs['ems_version'] = 'v1.2.3'
@@ -154,7 +155,7 @@ def model_matches(ds) -> list[tuple[str, int]]:
         matches.append(('ShocSimple', 30))
     if 'UGRID' in str(ds.attrs.get('Conventions', '')):
         mesh = [v for v in ds.data_vars.values() if v.attrs.get('cf_role') == 'mesh_topology']
-        if mesh and mesh[0].attrs.get('topology_dimension') == 2:
+        if any(v.attrs.get('topology_dimension') == 2 for v in mesh):      # "a 2-D mesh variable", wherever it is listed
             matches.append(('UGrid', 30))
     return matches
 
